@@ -25,7 +25,8 @@ ASSUMPTIONS = [
     "Indices are generated in range; column selections only when every selected row is long enough.",
 ]
 REQUIRED_CLASSES = ["view-then-op", "empty-row", "unequal-rows", "single-row", "setitem", "concat", "compare-array", "split-join", "negative-index",
-                    "empty-selection", "two-dimensional", "fancy-columns-then-ravel", "built-from-encoded-rows"]
+                    "empty-selection", "two-dimensional", "fancy-columns-then-ravel", "built-from-encoded-rows",
+                    "str-equal-of-two-ragged-arrays"]
 BOUNDS = {"quick": "1500 programs of up to 12 steps for each of 4 encodings, lists of up to 6 strings of length up to 8",
           "thorough": "12000 programs of up to 30 steps per encoding, lists of up to 12 strings of length up to 20"}
 BUDGET_S = {"quick": 200, "thorough": 1500}
@@ -179,6 +180,22 @@ def run(case, on_step=None):
                         continue
                     sep = op.get("sep", ",")
                     push(strops.join(R, sep=sep), sep.join(M), op)
+                elif name == "str_equal" and op.get("other") == 3:
+                    # two ragged operands: the same rows, some with the last character changed, some one character shorter; the second operand
+                    # is either in the operand's encoding or still plain text (as_encoded_array of a list of str)
+                    if n == 0:
+                        continue
+                    other_m = []
+                    for r_, m in enumerate(M):
+                        how = (r_ + op["i"]) % 3
+                        if how == 1 and m:
+                            m = m[:-1] + alphabet[(alphabet.index(m[-1]) + 1) % len(alphabet)]
+                        elif how == 2 and m:
+                            m = m[:-1]
+                        other_m.append(m)
+                    other = bnp.as_encoded_array(other_m, enc) if op["i"] % 2 else bnp.as_encoded_array(other_m)
+                    res = strops.str_equal(R, other)
+                    push(np.asarray(res), [m == o for m, o in zip(M, other_m)], op, check_encoding=False)
                 elif name == "str_equal":
                     if n and not op.get("other"):
                         target = M[op["i"] % n]
@@ -371,6 +388,8 @@ def classify(case):
         cl.append("empty-selection")
     if "from_rows" in names:
         cl.append("built-from-encoded-rows")
+    if any(op["op"] == "str_equal" and op.get("other") == 3 for op in prog):
+        cl.append("str-equal-of-two-ragged-arrays")
     if case.get("matrix"):
         cl.append("two-dimensional")
         for i, op in enumerate(prog):
@@ -408,7 +427,7 @@ def op_strategy(with_matrix=False):
         st.builds(lambda s: {"op": "ravel", "src": s}, src),
         st.builds(lambda s, c: {"op": "from_rows", "src": s, "compare": int(c)}, src, st.booleans()),
         st.builds(lambda s, p: {"op": "join", "src": s, "sep": p}, src, st.sampled_from([",", ";", "\t"])),
-        st.builds(lambda s, i, o: {"op": "str_equal", "src": s, "i": i, "other": o}, src, st.integers(0, 20), st.sampled_from([0, 1, 2, 2])),
+        st.builds(lambda s, i, o: {"op": "str_equal", "src": s, "i": i, "other": o}, src, st.integers(0, 20), st.sampled_from([0, 1, 2, 2, 3, 3])),
         st.builds(lambda s, j, c: {"op": "set_cell", "src": s, "j": j, "c": c}, src, st.integers(0, 20), st.integers(0, 25)),
         st.builds(lambda s, i, c: {"op": "set_row", "src": s, "i": i, "c": c}, src, st.integers(0, 30), st.integers(0, 25)),
         st.builds(lambda s, a, b, w, c: {"op": "set_block", "src": s, "a": a, "b": b, "w": w, "c": c}, src, st.integers(0, 20), st.integers(0, 20),
